@@ -75,3 +75,13 @@ Definition run_repr_prog (p : repr_prog) (x : Z) : option (option (nat * nat)) :
   | Some env => Some (run_parms env (rp_arms p) x)
   | None => None
   end.
+
+(* ---- from_repr.rs:13-34: which type `discriminant` has, however #[repr] is WRITTEN ----
+   every hint of every #[repr(..)] attribute is inspected in source order; a hint that is one of the ten integer types replaces
+   the current choice (initially usize); hints with arguments (align(8), packed(2)) and C / transparent are skipped *)
+Inductive rhint := HInt (r : repr) | HOtherHint.
+Definition scan_hint (acc : repr) (h : rhint) : repr := match h with HInt r => r | HOtherHint => acc end.
+Definition scan_attr (acc : repr) (hs : list rhint) : repr := fold_left scan_hint hs acc.
+Definition scan_repr (attrs : list (list rhint)) : repr := fold_left scan_attr attrs RUsize.
+(* the integer hints among all hints, in source order *)
+Definition int_hints (hs : list rhint) : list repr := flat_map (fun h => match h with HInt r => [r] | HOtherHint => [] end) hs.
